@@ -42,6 +42,23 @@ def items(tier, seed):
             out.append({"t": name, "A": a, "B": b, "op": rng.choice(["add", "sub"]) if len(pairs) >= per else "add"})
             if len(pairs) < per:
                 out.append({"t": name, "A": a, "B": b, "op": "sub"})
+    # operands of equal dimensions built in a different factor order / through different shapes
+    for grp in exprs.EQUAL_DIMS:
+        if not all(g in names for g in grp):
+            continue
+        for ta in grp:
+            for tb in grp:
+                if ta == tb:
+                    continue
+                ia, ib = exprs.instances(ta, n_units=2), exprs.instances(tb, n_units=2)
+                for _ in range(6 if tier == "quick" else 60):
+                    out.append({"t": ta + "|" + tb, "A": rng.choice(ia), "B": rng.choice(ib), "op": rng.choice(["add", "sub"])})
+    # empty Array operands: only the quantity clauses apply
+    for kind in ("list", "tuple"):
+        for ta in ("len", "area", "vel"):
+            ia = exprs.instances(ta, n_units=3, with_cats=True)
+            for _ in range(4 if tier == "quick" else 30):
+                out.append({"t": ta, "A": rng.choice(ia), "B": rng.choice(ia), "op": rng.choice(["add", "sub"]), "arr": kind, "empty": True})
     # exponent-1 operands over the whole table (affine units included): value(a+-b) = value(a) +- convert(b -> a's unit)
     db = get_db("default")
     allp = []
@@ -56,7 +73,7 @@ def items(tier, seed):
     for qt, u, v in simple:
         out.append({"t": "simple", "qt": qt, "A": ["leaf", u, qt], "B": ["leaf", v, qt], "op": rng.choice(["add", "sub"])})
     for i, c in enumerate(out):
-        if i % 5 == 0 and c["t"] != "simple" and "pow" not in json.dumps(c):
+        if i % 5 == 0 and c["t"] != "simple" and "pow" not in json.dumps(c) and not c.get("arr"):
             c["arr"] = ["numpy", "list", "tuple"][(i // 5) % 3]
     out[0]["canary"] = True
     for c in out:
@@ -77,7 +94,7 @@ def _vq(o):
 
 def run(cfg, V):
     ctr = [0]
-    cls = leaf_class(cfg.get("arr"))
+    cls = leaf_class(cfg.get("arr"), bool(cfg.get("empty")))
     A = build(cfg["A"], V, ctr, cls)
     B = build(cfg["B"], V, ctr, cls)
     if cfg["op"] == "add":
@@ -109,6 +126,9 @@ def props(cfg, T, obs):
              ("value(a+-b) ~ value(a) +- value(b re-expressed in a's unit)", approx(obs["r"][0], want, sc)),
              ("(a+-b)-+b ~ a (value)", z3.And(approx(obs["back"][0], T["x0"], sc), z3.BoolVal(bool(obs["back_same_q"]))))]
         return P
+    if cfg.get("empty"):
+        return [("result is an Array", obs["cls"] == "Array"),
+                ("result has the left operand's units and categories (empty operands)", bool(obs["same_q"]) and obs["r"][1] == obs["A"][1] and bool(obs["back_same_q"]))]
     mA, mB, mr, mback = (mag_of(*obs[k]) for k in ("A", "B", "r", "back"))
     want = mA + mB if cfg["op"] == "add" else mA - mB
     sc = zabs(mA) + zabs(mB) + 1  # rounding of each operand is relative to the operand, not to the (possibly cancelling) sum
@@ -126,4 +146,5 @@ def props(cfg, T, obs):
 
 
 def finding_key(cfg, name):
-    return "%s %s %s%s :: %s" % (spec_str(cfg["A"]), "+" if cfg["op"] == "add" else "-", spec_str(cfg["B"]), " [Array.%s]" % cfg["arr"] if cfg.get("arr") else "", name)
+    return "%s %s %s%s%s :: %s" % (spec_str(cfg["A"]), "+" if cfg["op"] == "add" else "-", spec_str(cfg["B"]), " [Array.%s]" % cfg["arr"] if cfg.get("arr") else "",
+                                   " empty" if cfg.get("empty") else "", name)
